@@ -164,9 +164,9 @@ def check_loop_protocol(repo, rep):
                 # of the chunk, each normalised against its predecessor) are not part of the head-of-step protocol
                 depth, head = 0, []
                 for e in seg:
-                    if e[0] == "loop" and str(e[1]).startswith("loop:"):
+                    if e[0] == "loop" and (str(e[1]).startswith("loop:") or e[1] == "while"):
                         depth += 1
-                    elif e[0] == "endloop" and str(e[1]).startswith("loop:"):
+                    elif e[0] == "endloop" and (str(e[1]).startswith("loop:") or e[1] == "while"):
                         depth -= 1
                     elif depth == 0 or not (e[0] == "call" and e[1] == "_get_fixed_jumped_candle"):
                         head.append(e)
